@@ -245,11 +245,17 @@ def run(ctx):
     chk.ob("label-definition", isinstance(kl, Agg) and kl.f[2] == 42 and trv.f[names.index("next_addr")] == 42,
            "a label is defined as the address of the byte that follows it and produces no bytes",
            p.need_body(TR + "::push").loc(), "%s" % (kl,))
-    for vname_, fld, val in (("AsmStacksize", "stacksize", En({am.vi["Stacksize"]["_48"]: ()})),
-                             ("AsmProgramsize", "programsize", En({am.vi["Programsize"]["Size"]: (33,)}))):
+    settings = [("AsmStacksize", "stacksize", vn, En({vi_: ()})) for vn, vi_ in sorted(am.vi["Stacksize"].items())]
+    for vn, vi_ in sorted(am.vi["Programsize"].items()):
+        nf = len(am.variants("Programsize")[vi_]["fields"])
+        for pay in ([()] if nf == 0 else [(0,), (33,), (255,)]):
+            settings.append(("AsmProgramsize", "programsize", "%s%s" % (vn, list(pay) if pay else ""), En({vi_: pay})))
+    for vname_, fld, label_, val in settings:
+        # whatever the setting was before (the translator's field starts unknown), the directive's value is reported
         tr, bols, res = push(En({ivi[vname_]: (val,)}), 10)
-        chk.ob("setting/%s" % vname_, tr is not None and tr[fld] == val and isinstance(bols, Arr) and not bols.e,
-               "*STACKSIZE / *PROGRAMSIZE are recorded and produce no bytes", pb.loc(), "")
+        chk.ob("setting/%s/%s" % (vname_, label_), tr is not None and tr[fld] == val and isinstance(bols, Arr) and not bols.e,
+               "*STACKSIZE / *PROGRAMSIZE are reported with exactly the value written (every value incl. NOSET/AUTO) and produce no bytes",
+               pb.loc(), "reported %s, written %s" % (D.short(tr[fld]) if tr else None, D.short(val)))
 
     # ---- clause 3: relative jump closure and late substitution ----------------------------------
     rj = p.need_body("L::compiler::relative_jump")
